@@ -1,0 +1,30 @@
+// SPDX-FileCopyrightText: 2026 The Pion community <https://pion.ly>
+// SPDX-License-Identifier: MIT
+
+//go:build verif
+
+// Package verifhooks re-exports internal packages for the external
+// verification harness. It is only compiled with the "verif" build tag.
+package verifhooks
+
+import (
+	"time"
+
+	"github.com/pion/interceptor/internal/ntp"
+	"github.com/pion/interceptor/internal/sequencenumber"
+)
+
+// Unwrapper re-exports sequencenumber.Unwrapper.
+type Unwrapper = sequencenumber.Unwrapper
+
+// ToNTP re-exports ntp.ToNTP.
+func ToNTP(t time.Time) uint64 { return ntp.ToNTP(t) }
+
+// ToNTP32 re-exports ntp.ToNTP32.
+func ToNTP32(t time.Time) uint32 { return ntp.ToNTP32(t) }
+
+// ToTime re-exports ntp.ToTime.
+func ToTime(t uint64) time.Time { return ntp.ToTime(t) }
+
+// ToTime32 re-exports ntp.ToTime32.
+func ToTime32(t uint32, reference time.Time) time.Time { return ntp.ToTime32(t, reference) }
